@@ -6,10 +6,10 @@ import lib_scope_alias as A
 
 RULE = ("histories of alias / copy / mutate operations over three variables holding lists and objects (<= 4 live containers), each "
         "operation followed by a full observation (print of every variable, === / !== between every two variables of one kind "
-        "and between every stored child and every variable): breadth-first over distinct heap shapes — from every shape first "
-        "reached within 3 (quick) / 4 (thorough) operations every applicable operation is tried (exhaustive to that bound) — "
-        "from three initial heaps, plus random histories of 5..12 operations; scalar histories: every sequence of <= 3 / <= 4 "
-        "operations on two scalar variables, a list and an object (ints, strings); every expected line comes from running the same "
+        "and between every stored child and every variable): breadth-first over distinct heap shapes — histories of up to "
+        "3 (quick; 2 for the all-objects initial heap) / 4 (thorough) operations: from every distinct shape reachable with one "
+        "operation fewer, every applicable operation is tried (exhaustive to that bound) — from three initial heaps, plus random histories of 5..12 operations; scalar histories: every sequence of <= 3 (strings in quick: <= 2) / <= 4 "
+        "(length 4: 60000 sampled) operations on two scalar variables, a list and an object (ints, strings); every expected line comes from running the same "
         "history on Python lists/dicts/ints/strs; non-trivial = distinct (heap shape before the last operation, operation) / "
         "distinct operation sequence")
 ASSUMPTIONS = ["the Python reference encodes the statement: alias sites bind the same object, building operations make a new "
@@ -88,7 +88,7 @@ def run(ctx, model_ok):
     ctx.cov["exhaustive_bound"] = f"every operation from every heap shape reachable within {bound - 1} operations; scalar sequences <= {4 if thorough else 3}"
     reported = set()
     for init in A.INITS:
-        ex = A.Explorer(init, bound)
+        ex = A.Explorer(init, bound if (thorough or init != "objects") else bound - 1)
         batch = []
 
         def flush():
@@ -129,6 +129,8 @@ def run(ctx, model_ok):
     maxlen = 4 if thorough else 3
     for kind in ("int", "str"):
         nops = len(A.scalar_ops(kind))
+        if kind == "str" and not thorough:
+            maxlen = 2
         if maxlen == 4:
             # length 4: every sequence whose last two operations touch both an operator and a copy (the rest sampled)
             seqs = [idx for L in (1, 2, 3) for idx in itertools.product(range(nops), repeat=L)]
